@@ -90,9 +90,10 @@ static JVal protocol_unmarshal(const std::string& kind, bool comp, bool checked,
     if (kind == "wk.key") {
         WkKey K; memset(&K.k, 0, sizeof K.k);
         int rep = -2, rep2 = -2;
+        K.k.l = 7777;                 // a key object that already has a slot count: a rejected length must leave it alone
         GUARDED_CALL(fault, rep2 = embedded_pairing_wkdibe_secretkey_unmarshalled_length(in.p, n, comp));
         GUARDED_CALL(fault, rep = embedded_pairing_wkdibe_secretkey_set_length(&K.k, in.p, n, comp));
-        r.set("rep", (long long) rep); r.set("rep2", (long long) rep2);
+        r.set("rep", (long long) rep); r.set("rep2", (long long) rep2); r.set("lafter", (long long) K.k.l);
         // a reported slot count that an n-byte buffer cannot hold is recorded and judged by the specification; the harness does not
         // try to allocate it (a real caller would)
         if (!fault && rep >= 0 && (size_t) rep <= n) {
@@ -108,9 +109,10 @@ static JVal protocol_unmarshal(const std::string& kind, bool comp, bool checked,
     } else if (kind == "wk.params") {
         WkParams P; memset(&P.p, 0, sizeof P.p);
         int rep = -2, rep2 = -2;
+        P.p.l = 7777;
         GUARDED_CALL(fault, rep2 = embedded_pairing_wkdibe_params_unmarshalled_length(in.p, n, comp));
         GUARDED_CALL(fault, rep = embedded_pairing_wkdibe_params_set_length(&P.p, in.p, n, comp));
-        r.set("rep", (long long) rep); r.set("rep2", (long long) rep2);
+        r.set("rep", (long long) rep); r.set("rep2", (long long) rep2); r.set("lafter", (long long) P.p.l);
         if (!fault && rep >= 0 && (size_t) rep <= n) {
             P.alloc(rep);
             GUARDED_CALL(fault, ok = embedded_pairing_wkdibe_params_unmarshal(&P.p, in.p, comp, checked));
@@ -242,7 +244,7 @@ static void run_case(const JVal& in) {
         std::string content = in["content"].s;
         std::vector<uint8_t> valid = in["valid"].byte_vec();
         Rng g((uint64_t) in.num("seed", 1));
-        JVal reps = JVal::arr(), oks = JVal::arr(), relens = JVal::arr(), faults = JVal::arr();
+        JVal reps = JVal::arr(), oks = JVal::arr(), relens = JVal::arr(), faults = JVal::arr(), lafters = JVal::arr(), rep2s = JVal::arr();
         for (int n = 1; n <= nmax; n++) {
             std::vector<uint8_t> b((size_t) n);
             if (content == "zeros") memset(b.data(), 0, b.size());
@@ -251,9 +253,10 @@ static void run_case(const JVal& in) {
             if (fb >= 0) b[0] = (uint8_t) fb;
             JVal r = protocol_unmarshal(kind, comp, checked, b.data(), b.size());
             reps.push(JVal(r.num("rep", -9))); oks.push(JVal(r.num("ok", 0))); relens.push(JVal(r.num("relen", -1)));
+            lafters.push(JVal(r.num("lafter", -9))); rep2s.push(JVal(r.num("rep2", -9)));
             if (r.num("fault", 0)) { JVal f = JVal::arr(); f.push(JVal((long long) n)); f.push(JVal(r.num("fault_off", 0))); faults.push(f); }
         }
-        out.set("rep", reps); out.set("ok", oks); out.set("relen", relens); out.set("faults", faults);
+        out.set("rep", reps); out.set("ok", oks); out.set("relen", relens); out.set("faults", faults); out.set("lafter", lafters); out.set("rep2", rep2s);
     } else out.set("skip", 1);
     ev.set("out", out);
     if (!out.has("skip")) emit(g_out, ev);
